@@ -25,7 +25,7 @@ ASSUMPTIONS = [
     "and for 'ignore_changes'/'permanent' keys present on both sides with different text the old text",
     "sibling rules of generated rulebooks have distinct first words except in the dedicated specific-before-general families",
 ]
-BUDGET = {"quick": 70, "thorough": 1200}
+BUDGET = {"quick": 150, "thorough": 1200}
 
 BLOCK_VENDORS = {"huawei": ("undo", ("quit",)), "cisco": ("no", ("exit",)), "arista": ("no", ("exit",))}
 FLAT_VENDORS = {"juniper": ("delete", ())}
